@@ -2,7 +2,7 @@
 # Regenerates Gen/*.v from /repo, builds the Coq development (or the given targets) and the OCaml model driver.
 # usage: build_model.sh [make-targets...]   (default: all)
 set -u
-V=/verif
+V=$(cd "$(dirname "$0")/.." && pwd)
 cd $V/coq || exit 2
 /venv/bin/python $V/tools/translate/gen_all.py > $V/coq/Gen/status.txt 2>&1 || { cat $V/coq/Gen/status.txt; }
 [ -f Makefile ] && [ Makefile -nt _CoqProject ] || coq_makefile -f _CoqProject -o Makefile >/dev/null 2>&1
